@@ -49,6 +49,10 @@ def bit_blocks(rng: random.Random, sizes: List[int], w: int) -> List[Block]:
         add("neg", "bit.neg {n}, {v0}", 1, n)
         add("add", "bit.add {n}, {v0}, {v1}", 2, n)
         add("sub", "bit.sub {n}, {v0}, {v1}", 2, n)
+        # the same variable as destination and source (x ^= x; x = 0 / x -= x): the documentation sets no restriction on it
+        va = rng.choice(VARS)
+        B.append(Block("xor_zero", "bit.xor_zero {n}, {v0}, {v1}", [va, va], n, name="bit.xor_zero[dst=src]"))
+        B.append(Block("sub", "bit.sub {n}, {v0}, {v1}", [va, va], n, name="bit.sub[dst=src]"))
         add("mul10", "bit.mul10 {n}, {v0}", 1, n)
         add("div10", "bit.div10 {n}, {v0}, {v1}", 2, n)
         if n <= 16:
